@@ -54,8 +54,13 @@ fn main() {
     guard::install_hook();
     let args: Vec<String> = std::env::args().collect();
     let code = match args.get(1).map(|s| s.as_str()) {
+        // `run` and `replay` execute in a child process, so that a failure that is not an unwind
+        // (stack overflow, abort, a signal) still ends in a verdict
+        Some("run") if args.len() >= 4 && std::env::var("VERIF_CHILD").is_err() => supervise_run(&args[2], &args[3]),
+        Some("replay") if args.len() >= 3 && std::env::var("VERIF_CHILD").is_err() => supervise_replay(&args[2]),
         Some("run") if args.len() >= 4 => cmd_run(&args[2], &args[3]),
         Some("replay") if args.len() >= 3 => cmd_replay(&args[2]),
+        Some("range") if args.len() >= 6 => cmd_range(&args[2], &args[3], args[4].parse().unwrap_or(0), args[5].parse().unwrap_or(0), args.get(6).map(|s| s.as_str())),
         Some("digest") if args.len() >= 4 => cmd_digest(&args[2], args[3].parse().unwrap_or(1000)),
         _ => {
             eprintln!("usage: rtcp-sim run <id> <quick|thorough> | replay <file> | digest <id> <episodes>");
@@ -63,6 +68,129 @@ fn main() {
         }
     };
     std::process::exit(code);
+}
+
+/// Exit status of a child: Ok(code) for a normal exit, Err(description) when it was killed.
+fn child_status(args: &[&str]) -> Result<i32, String> {
+    let exe = std::env::current_exe().map_err(|e| e.to_string())?;
+    let st = std::process::Command::new(exe).args(args).env("VERIF_CHILD", "1").status().map_err(|e| e.to_string())?;
+    match st.code() {
+        Some(c) if (0..=2).contains(&c) => Ok(c),
+        Some(c) => Err(format!("exit status {c}")),
+        None => {
+            #[cfg(unix)]
+            {
+                use std::os::unix::process::ExitStatusExt;
+                Err(format!("signal {}", st.signal().unwrap_or(0)))
+            }
+            #[cfg(not(unix))]
+            Err("killed".to_string())
+        }
+    }
+}
+
+/// Run episodes lo..hi quietly (crash triage); with a journal path, write every delivery out first.
+fn cmd_range(id: &str, tier: &str, lo: u64, hi: u64, journal: Option<&str>) -> i32 {
+    let Some(check) = find(id) else { return 2 };
+    let tier = if tier == "thorough" { Tier::Thorough } else { Tier::Quick };
+    let seed = env_u64("VERIF_SEED", 1);
+    let file = journal.and_then(|p| std::fs::File::create(p).ok()).map(std::sync::Mutex::new);
+    let w = if journal.is_some() { 1 } else { workers() };
+    let _ = explore_range(check.as_ref(), seed, tier, lo, hi, w, 600, file.as_ref());
+    0
+}
+
+fn supervise_run(id: &str, tier: &str) -> i32 {
+    match child_status(&["run", id, tier]) {
+        Ok(c) => c,
+        Err(how) => triage_crash(id, tier, &how),
+    }
+}
+
+/// The child died without a verdict.  Episodes are deterministic, so the crashing one can be
+/// found by bisection over episode ranges, and the crashing delivery inside it from a journal
+/// that is written before each delivery is executed.
+fn triage_crash(id: &str, tier: &str, how: &str) -> i32 {
+    println!("# the simulator process ended abnormally ({how}); locating the episode by bisection");
+    let Some(check) = find(id) else { return 2 };
+    let t = if tier == "thorough" { Tier::Thorough } else { Tier::Quick };
+    let n = env_u64("VERIF_EPISODES", check.episodes(t));
+    let crashes = |lo: u64, hi: u64| child_status(&["range", id, tier, &lo.to_string(), &hi.to_string()]).is_err();
+    // grow a prefix until it crashes (the first crashing episode usually has a low index)
+    let (mut lo, mut hi) = (0u64, 64u64.min(n));
+    while !crashes(0, hi) {
+        if hi >= n {
+            println!("# harness error: the abnormal end did not reproduce when the episodes were re-run");
+            return 2;
+        }
+        lo = hi;
+        hi = (hi * 4).min(n);
+    }
+    // invariant: [0, lo) runs clean, [0, hi) crashes
+    while hi - lo > 1 {
+        let mid = lo + (hi - lo) / 2;
+        if crashes(lo, mid) {
+            hi = mid;
+        } else {
+            lo = mid;
+        }
+    }
+    let episode = lo;
+    let journal = format!("{}/{}-crash-journal-{}.jsonl", replay_dir(), id, std::process::id());
+    let _ = std::fs::create_dir_all(replay_dir());
+    let again = child_status(&["range", id, tier, &episode.to_string(), &(episode + 1).to_string(), &journal]);
+    let last = std::fs::read_to_string(&journal).ok().and_then(|t| t.lines().last().map(|l| l.to_string()));
+    let _ = std::fs::remove_file(&journal);
+    let (Err(how2), Some(line)) = (again, last) else {
+        println!("# harness error: episode {episode} of {id} ends the process abnormally ({how}) but published no delivery to report");
+        return 2;
+    };
+    let Ok(j) = J::parse(&line) else {
+        println!("# harness error: unreadable crash journal");
+        return 2;
+    };
+    let bytes = j.str_of("deliver").ok().and_then(|h| json::unhex(h).ok()).unwrap_or_default();
+    let tape: Vec<u32> = j.arr_of("tape").map(|a| a.iter().filter_map(|v| v.as_u64().map(|x| x as u32)).collect()).unwrap_or_default();
+    let case = check.raw_case(&bytes, &tape);
+    let seed = env_u64("VERIF_SEED", 1);
+    let file = J::obj()
+        .set("format", 1)
+        .set("property", id)
+        .set("verif_seed", seed)
+        .set("episode", episode)
+        .set("minimised", false)
+        .set("violation", J::obj().set("class", "Crash").set("detail", format!("the process executing this delivery ended abnormally ({how2}): a failure that is not an unwind (stack overflow, abort)")))
+        .set("case", case);
+    let path = write_replay(id, seed, &file);
+    if check.hang_is_violation() {
+        println!("VIOLATION property={id} replay={path}");
+        println!("#   class=Crash episode={episode} detail=the process executing this delivery ended abnormally ({how2})");
+        println!("# verdict: VIOLATION (crash)");
+        1
+    } else {
+        println!("# harness error: a call into rtcp-types ended the process abnormally ({how2}); that is property C01's concern, this check cannot continue (case written to {path})");
+        2
+    }
+}
+
+fn supervise_replay(path: &str) -> i32 {
+    match child_status(&["replay", path]) {
+        Ok(c) => c,
+        Err(how) => {
+            let id = std::fs::read_to_string(path).ok().and_then(|t| J::parse(&t).ok()).and_then(|j| j.str_of("property").ok().map(|s| s.to_string())).unwrap_or_default();
+            match find(&id) {
+                Some(c) if c.hang_is_violation() => {
+                    println!("VIOLATION property={id} replay={path}");
+                    println!("#   class=Crash detail=the process replaying this case ended abnormally ({how})");
+                    1
+                }
+                _ => {
+                    println!("# harness error: the process replaying {path} ended abnormally ({how})");
+                    2
+                }
+            }
+        }
+    }
 }
 
 fn cmd_digest(id: &str, n: u64) -> i32 {
